@@ -91,7 +91,7 @@ def case_gen(draw):
     post = draw(st.sampled_from([None, None, 'to_list', 'count']))
     none_at = draw(st.lists(st.integers(0, max(0, len(preds) - 1)), max_size=3, unique=True)) if draw(st.integers(0, 3)) == 0 else []
     return {'pool': pool, 'preds': preds, 'gk': gk, 'parent': parent, 'pspec': pspec, 'p': p, 'post': post,
-            'none_at': none_at, 'none_pred': draw(st.integers(0, 3)), 'pf_form': draw(st.sampled_from(['plain', 'plain', 'default_arg']))}
+            'none_at': none_at, 'none_pred': draw(st.integers(0, 3)), 'pf_form': draw(st.sampled_from(['plain', 'plain', 'default_arg', 'partial', 'obj']))}
 
 
 def check(case):
@@ -112,8 +112,14 @@ def check(case):
     pform = case.get('pf_form', 'plain')
     if pform == 'default_arg':
         pred = lambda i, table=None: pf(i)              # one item at a time; the second parameter has a default and is never given
-    elif pform == 'method':
-        pred = {None: None}.get if False else (lambda i, default=None: pf(i))
+    elif pform == 'partial':
+        import functools
+        pred = functools.partial(lambda f, i: f(i), pf)          # a callable without __name__
+    elif pform == 'obj':
+        class _P(object):
+            def __call__(self, i):
+                return pf(i)
+        pred = _P()
     else:
         pred = pf
     inner = [drive.tap(phead, clock), rs.data.split(pred, seg_ops)] + post_real
